@@ -141,6 +141,110 @@ def expand_name(du: DefUse, e: ast.AST, at: ast.AST = None, depth: int = 4) -> a
     return cur
 
 
+def split_ifexp(e: ast.AST, guards=()) -> List[Tuple[list, ast.AST]]:
+    """[(guards, expr)] with every conditional expression in `e` (outside comprehensions / lambdas) resolved one way."""
+    import copy as _copy
+    stack = [e]
+    ie = None
+    while stack:
+        n = stack.pop()
+        if isinstance(n, ast.IfExp):
+            ie = n
+            break
+        for c in ast.iter_child_nodes(n):
+            if not isinstance(c, (ast.Lambda, ast.ListComp, ast.SetComp, ast.DictComp, ast.GeneratorExp)):
+                stack.append(c)
+    if ie is None:
+        return [(list(guards), e)]
+
+    def repl(root, new):
+        if root is ie:
+            return _copy.deepcopy(new)
+        out = _copy.copy(root)
+        for fld, val in ast.iter_fields(root):
+            if isinstance(val, ast.AST):
+                setattr(out, fld, repl(val, new))
+            elif isinstance(val, list):
+                setattr(out, fld, [repl(x, new) if isinstance(x, ast.AST) else x for x in val])
+        return out
+    return split_ifexp(repl(e, ie.body), list(guards) + [(ie.test, True)]) + split_ifexp(repl(e, ie.orelse), list(guards) + [(ie.test, False)])
+
+
+def value_alternatives(du: DefUse, e: ast.AST, at: ast.AST, depth: int = 4, max_alts: int = 24, keep=()) -> List[Tuple[list, ast.AST]]:
+    """The values expression `e` can take at statement `at`, as [(guards, expr)]: every local name whose reaching
+    definitions are plain assignments is replaced by the assigned value (recursively, evaluated where it was assigned); one
+    alternative per combination of reaching definitions, each carrying the guards of the definitions chosen, the guards of
+    `at` itself and the branch of every conditional expression.  Names in `keep`, parameters, loop targets, unpacked or
+    mutated definitions stay names.  Raises AnalysisError beyond `max_alts` alternatives."""
+    import copy as _copy
+    import itertools as _it
+    cfg = du.cfg
+
+    def expand(expr, at_stmt, d) -> List[Tuple[list, ast.AST]]:
+        names = []
+        for n in ast.walk(expr):
+            if isinstance(n, ast.Name) and isinstance(n.ctx, ast.Load) and n.id not in names and n.id not in keep:
+                names.append(n.id)
+        choices = {}
+        for nm in names:
+            defs = [x for x in du.reaching(nm, at_stmt) if x.kind != "mutate"]
+            if not defs or d <= 0:
+                continue
+            opts = []
+            here_n = cfg.node_for(at_stmt)
+            for x in defs:
+                # conditions under which this definition is made and arrives here without being overwritten
+                gx = []
+                if len(defs) > 1:
+                    gx = list(cfg.guards(x.node))
+                    if here_n is not None and x.kind != "param":
+                        gx += cfg.guards_between(x.node, here_n, avoid=[y.node for y in defs if y is not x])
+                    elif here_n is not None:
+                        gx += cfg.guards_between(cfg.entry, here_n, avoid=[y.node for y in defs if y is not x])
+                if x.kind == "assign" and x.value is not None and x.unpack_index is None and x.stmt is not at_stmt \
+                        and not any(m.kind == "mutate" for m in du.reaching(nm, at_stmt)):
+                    for g2, v2 in expand(x.value, x.stmt, d - 1):
+                        opts.append((gx + g2, v2))
+                else:
+                    opts.append((gx, None))  # stays a name
+            if all(v is None for _, v in opts) and len(opts) == 1:
+                continue
+            choices[nm] = opts
+        if not choices:
+            return [([], expr)]
+        keys = list(choices)
+        total = 1
+        for k in keys:
+            total *= len(choices[k])
+        if total > max_alts:
+            raise AnalysisError(f"more than {max_alts} value alternatives for `{src(expr)[:60]}`")
+        out = []
+        for combo in _it.product(*[choices[k] for k in keys]):
+            g = []
+            mapping = {}
+            for k, (gk, vk) in zip(keys, combo):
+                g += gk
+                if vk is not None:
+                    mapping[k] = vk
+
+            class S(ast.NodeTransformer):
+                def visit_Name(self, node):
+                    if isinstance(node.ctx, ast.Load) and node.id in mapping:
+                        return _copy.deepcopy(mapping[node.id])
+                    return node
+            out.append((g, S().visit(_copy.deepcopy(expr))))
+        return out
+
+    alts = []
+    here = list(cfg.guards(cfg.node_for(at))) if cfg.node_for(at) is not None else []
+    for g, v in expand(e, at, depth):
+        for g2, v2 in split_ifexp(v, g):
+            alts.append((here + g2, v2))
+    if len(alts) > max_alts:
+        raise AnalysisError(f"more than {max_alts} value alternatives for `{src(e)[:60]}`")
+    return alts
+
+
 def returns_of(fn_node: ast.AST) -> List[ast.Return]:
     return [n for n in walk_function(fn_node) if isinstance(n, ast.Return)]
 
